@@ -121,15 +121,22 @@ def program_text(p):
 
 # ------------------------------------------------------------------ implementation AST objects
 
+def _functor_name(f):
+    """the name of a Functor object of the implementation's AST.  `1(a)` gives Functor(NumeralTerm('1'), ..): the visitor builds it
+    without complaint and the compiler raises only if it reaches it; Lang/Unquote.v keeps it under the name backslash + digits
+    (no atom of a source text can have a backslash in its name)."""
+    from yldprolog import yp_prolog_visitor as V
+    if isinstance(f.name, V.Atom): return f.name.value
+    if isinstance(f.name, V.NumeralTerm): return '\\' + f.name.num
+    raise ValueError('functor name is neither an atom nor a numeral')
+
 def read_term(t):
     from yldprolog import yp_prolog_visitor as V
     if isinstance(t, V.Atom): return ['atom', t.value]
     if isinstance(t, V.NumeralTerm): return ['num', t.num]
     if isinstance(t, V.VariableTerm): return ['var', t.varname]
     if isinstance(t, V.Functor):
-        if not isinstance(t.name, V.Atom):
-            raise ValueError('functor name is not an atom')
-        return ['fun', t.name.value, [read_term(a) for a in t.args]]
+        return ['fun', _functor_name(t), [read_term(a) for a in t.args]]
     if isinstance(t, V.ListTerm): return ['list', [read_term(a) for a in t.items]]
     if isinstance(t, V.ListPairTerm): return ['pair', read_term(t.head), read_term(t.tail)]
     raise ValueError('not a term: %r' % (t,))
@@ -141,9 +148,7 @@ def read_body(b):
     if isinstance(b, V.CutPredicate): return ['cut']
     if isinstance(b, V.Predicate):
         f = b.functor
-        if not isinstance(f.name, V.Atom):
-            raise ValueError('goal name is not an atom')
-        return ['call', f.name.value, [read_term(a) for a in f.args]]
+        return ['call', _functor_name(f), [read_term(a) for a in f.args]]
     if isinstance(b, V.ConjunctionPredicate): return ['and', read_body(b.lhs), read_body(b.rhs)]
     if isinstance(b, V.DisjunctionPredicate): return ['or', read_body(b.lhs), read_body(b.rhs)]
     if isinstance(b, V.IfThenPredicate): return ['if', read_body(b.condition), read_body(b.action)]
